@@ -1,4 +1,5 @@
 import EaModel.Properties.SchedCommon
+import EaModel.Lemmas.Order
 /-!
 # C09 — due jobs run in chronological order
 
@@ -44,9 +45,57 @@ theorem insort_keeps_sorted (nr : Nat → Option Int) (x : Nat) (q : List Nat)
     (hs : q.Pairwise (leNR nr)) : (insort nr x q).Pairwise (leNR nr) :=
   insort_sorted nr x q hx hq hs
 
+/-- the operations in which the loop executes jobs: a wake-up after the loop was blocked (`yield`), a sleep
+of the loop (any number of wake-ups), switching the scheduler on or off -/
+def isWakeup : Op → Prop
+  | .yield => True
+  | .sleep d => 0 ≤ d
+  | .enable _ => True
+  | _ => False
+
+/-- Chronological order: in every reachable state, the executions that a wake-up, a sleep or re-enabling the
+scheduler performs are logged in non-decreasing order of the run times the jobs reported (`dues l` lists them
+newest first, hence non-increasing), each of them due no later than the clock, and whatever is still queued
+afterwards is due no earlier than any job that was executed: no job overtakes an earlier one, however many
+jobs are due, whatever they do when they run (finish, fail, reschedule, re-arm the timer recursively). -/
+theorem executions_in_due_order (env : Env) (now : Int) (en : Bool) (ops : List Op) (op : Op) (hop : isWakeup op) :
+    let s := runOps (initSt env now en) ops
+    let s' := (step s op).1
+    ∃ l, s'.log = l ++ s.log ∧ (dues l).Pairwise (· ≥ ·) ∧
+      ∀ d ∈ dues l, d ≤ s'.now ∧ ∀ x ∈ s'.queue, ∀ t, s'.nr x = some t → d ≤ t := by
+  intro s s'
+  have hI : Inv s := inv_reachable env now en ops
+  have key : Ordered s s' := by
+    cases op with
+    | yield =>
+      show Ordered s (fireDue s)
+      unfold fireDue
+      split
+      · split
+        · exact runJobs_ordered OPFUEL hI
+        · exact Ordered.refl s
+      · exact Ordered.refl s
+    | sleep d =>
+      have hd : 0 ≤ d := hop
+      exact sleepLoop_ordered SLEEPFUEL (s.now + d) hI (by omega)
+    | enable e =>
+      show Ordered s (step s (.enable e)).1
+      unfold step
+      simp only []
+      split
+      · exact Ordered.refl s
+      · have hI' : Inv { s with enabled := e } := ⟨hI.q, hI.st, hI.log⟩
+        exact setTimer_ordered OPFUEL hI'
+    | _ => exact absurd hop (by simp [isWakeup])
+  obtain ⟨l, hl, hs, hg⟩ := key
+  exact ⟨l, hl, hs, fun d hd => ⟨(hg d hd).2, (hg d hd).1⟩⟩
+
 -- non-vacuity (executable check): three jobs created out of order run in order after the loop was blocked
 #guard ((runOps (initSt {} 0) [.create 1 none (.once 30) [] [], .create 2 none (.once 10) [] [],
     .create 3 none (.once 20) [] [], .advance 50, .yield]).log.reverse.filterMap
   fun e => match e with | .exec j _ _ => some j | _ => none) == [2, 3, 1]
+
+#guard dues ((runOps (initSt {} 0) [.create 1 none (.once 30) [] [], .create 2 none (.once 10) [] [],
+    .create 3 none (.once 20) [] [], .advance 50, .yield]).log) == [30, 20, 10]
 
 end Ea.C09
